@@ -22,11 +22,11 @@ func init() {
 	prop("C19", []string{"R-DISTINGUISH", "R-ASTWALK", "R-RUNEBYTE"},
 		"every fast-path family reads the pattern datum its answer depends on (lazy flag, case folding, repeat bounds) per the frozen table of fast paths (R-DISTINGUISH); every contains-detector that routes patterns away from engines that cannot express them descends into every operator with children (R-ASTWALK); byte tables of the fast paths only receive runes bounded by 0x7F (R-RUNEBYTE).",
 		"that the accepted fragment equals the implemented fragment beyond the data read (e.g. what may follow or sit between recognised parts), span arithmetic of each searcher.")
-	prop("C09", []string{"R-EXHAUST"},
-		"the NFA compiler's operator switch covers every operator regexp/syntax can emit and rejects unknown ones with an error (R-EXHAUST a).",
+	prop("C09", []string{"R-EXHAUST", "R-PAIR", "R-COPYFRESH"},
+		"the NFA compiler's operator switch covers every operator regexp/syntax can emit and rejects unknown ones with an error (R-EXHAUST a); the compiler's recursion-depth counter is decremented on every non-error path, so the depth limit counts nesting, not node count (R-PAIR); Copy returns a value that does not share the engine Longest() mutates (R-COPYFRESH).",
 		"error text equality, CompilePOSIX flags, nesting-depth parity, LiteralPrefix/SubexpNames values: not yet decided by a rule here.")
-	prop("C11", []string{"R-EXHAUST", "R-SIBLING"},
-		"every per-strategy dispatcher (IsMatch, Find at zero/non-zero, FindIndices, FindIndicesAt, with-state) either handles every strategy or falls to the universal NFA helper (R-EXHAUST b); the X / XAt / XAtWithState variants behind Find vs FindAll/Count consult the same guard flags (R-SIBLING).",
+	prop("C11", []string{"R-EXHAUST", "R-SIBLING", "R-CANHANDLE", "R-MODEPROP"},
+		"every per-strategy dispatcher (IsMatch, Find at zero/non-zero, FindIndices, FindIndicesAt, with-state) either handles every strategy or falls to the universal NFA helper (R-EXHAUST b); the X / XAt / XAtWithState variants behind Find vs FindAll/Count consult the same guard flags (R-SIBLING); capacity-limited engines are only searched under their own capacity test, so a declined search is never read as no-match by Match while Find falls back (R-CANHANDLE); the match mode is copied into every handed-out per-search state, so the engine-level and pooled simulators agree (R-MODEPROP).",
 		"the relational equalities themselves (Match <=> FindIndex != nil, prefix property of FindAll, Count = len(FindAll)).")
 	prop("C15", []string{"R-FOLD", "R-ASCIIGUARD", "R-RUNEBYTE"},
 		"case-insensitive literals are compiled/extracted through unicode.SimpleFold on every path (R-FOLD); the ASCII-only automaton runs only on slices proven ASCII (R-ASCIIGUARD); a rune is narrowed to a byte / byte-table index only under a bound of 0x7F (R-RUNEBYTE).",
@@ -34,14 +34,23 @@ func init() {
 	prop("C03", []string{"R-SCRATCHINIT", "R-ENTRYCONFIG"},
 		"the capture working buffers (PikeVM currSlots, one-pass cache slots, pooled onepassSlots) start every search and every new seed from the not-participating sentinel on every path, per iteration where the loop overwrites them (R-SCRATCHINIT); every capture entry point re-establishes the slot-table width it reads (R-ENTRYCONFIG). Both are necessary for 'non-participating groups are -1' and 'NumSubexp()+1 groups reported' independent of earlier calls.",
 		"capture positions themselves, last-iteration semantics, compileStarViaPlus closure order, one-pass slot masks: value-level and declined.")
+	prop("C01", []string{"R-GATE", "R-LITTRUNC", "R-CANHANDLE", "R-RUNEBYTE", "R-EXHAUST", "R-FOLD"},
+		"a prefilter miss is only used as 'no match' when the literal set covers every branch (R-GATE, R-LITTRUNC); a capacity-limited engine's 'not found' is never taken for 'no match' (R-CANHANDLE); byte tables of rejection filters and fast paths only hold ASCII runes and case-fold through unicode.SimpleFold (R-RUNEBYTE, R-FOLD); IsMatch's dispatcher answers every strategy (R-EXHAUST).",
+		"that each engine's boolean equals regexp's: NFA compilation semantics, DFA determinisation, reverse search arithmetic are value-level and declined.")
+	prop("C10", []string{"R-COPYFRESH", "R-MODEPROP"},
+		"the mode belongs to one Regex value: Copy never shares the engine that Longest() mutates (R-COPYFRESH); every per-search state handed out carries the engine's current mode on every path (R-MODEPROP).",
+		"that each engine honours the mode (DFA-direct and digit-prefilter paths are known to ignore it on the pinned tree - see DESIGN.md findings not armed), sub-match choice in longest mode.")
+	prop("C04", []string{"R-ITERSTATE"},
+		"the iterator closures keep their cursor local to one traversal (R-ITERSTATE).",
+		"the adjacency/advance arithmetic of the enumeration loops, limit handling, code-point advance after an empty match (known divergence: byte-wise advance), look-behind at resume positions.")
 	prop("C05", []string{"R-RECURSION", "R-EPOCH"},
 		"every search-time recursion (call-graph cycle reachable from a search root) is guarded by a visited test-and-set gate on every path to the recursive call (R-RECURSION); the visited epoch of the backtracker is never advanced inside a start-position loop that calls the gated recursion, and every advance handles wrap-around (R-EPOCH).",
 		"the constant K and every value-dependent loop count (candidate loops of the reverse strategies, prefilter rescans); polynomial compile time. This is the weakest claim relative to the property: it decides two necessary conditions of the visited-table bound only.")
 	prop("C13", []string{"R-RESET", "R-EPOCH", "R-ENTRYCLEAR", "R-SCRATCHINIT", "R-ENTRYCONFIG", "R-POOL", "R-SHARED"},
 		"every clearing method of a per-search cache resets every memo field its siblings populate (R-RESET); visited-epoch wrap handling (R-EPOCH a); every NFA-simulation driver clears its visited set and truncates its thread queues before first use on every path (R-ENTRYCLEAR); recycled scratch slices (capture slot buffers) are constant-filled before every use, per iteration where a loop overwrites them (R-SCRATCHINIT); per-search mode fields (active slot width) are re-established by every entry that reads them (R-ENTRYCONFIG); pooled state is handed back exactly once and not used afterwards (R-POOL); no shared scratch carries history between calls (R-SHARED).",
 		"that stale values in reused-but-not-cleared buffers are never read (value-level); GC interaction with sync.Pool; adaptive prefilter trackers.")
-	prop("C14", []string{"R-RESET"},
-		"cache clearing is complete: no transition/state memo of the lazy DFA cache survives Clear/ClearKeepMemory/Reset with recycled state ids (R-RESET), a necessary condition of 'exact under every cache capacity'.",
+	prop("C14", []string{"R-RESET", "R-CANHANDLE", "R-BOUND"},
+		"cache clearing is complete: no transition/state memo of the lazy DFA cache survives Clear/ClearKeepMemory/Reset with recycled state ids (R-RESET), a necessary condition of 'exact under every cache capacity'; the bounded backtracker is searched only under its capacity predicate on the same engine and haystack, i.e. it explicitly declines (R-CANHANDLE, R-BOUND).",
 		"correctness of determinisation, reverse NFA construction, one-pass ambiguity test, look-around handling: the engines' agreement with the reference is value-level and declined.")
 	prop("C20", []string{"R-POOL", "R-BOUND"},
 		"per-search state obtained from the pools is handed back on every path to return (R-POOL a): a leaked state is re-created by Pool.New on every call, so the documented zero-allocation calls would allocate in steady state; the visited table is allocated only for a length that passed the capacity predicate, and every growth of the DFA cache is dominated by the within-capacity edge of its byte-budget test (R-BOUND).",
